@@ -194,6 +194,6 @@ def gen(rng, tier):
         ops += fanout_session(rng)
     for _ in range(budget(tier, 6, 300)):
         ops += chain_session(rng)
-    for _ in range(budget(tier, 60, 4000)):
+    for _ in range(budget(tier, 60, 1500)):
         ops += session(rng)
     return ops
